@@ -1,7 +1,9 @@
 package model
 
 import (
+	"encoding/base64"
 	"fmt"
+	"strings"
 
 	"verif/sim/kit"
 	"verif/sim/schema"
@@ -10,12 +12,34 @@ import (
 // GenOpts shapes generated data.
 type GenOpts struct {
 	NoZero     bool // never "", 0 or false (struct stores cannot tell them from unset)
+	Nasty      bool // strings with quotes, control characters, non-ASCII, long runs
 	MaxEntries int
 	Density    int // percent chance that an optional node is present
 	KeyPool    int // keys are drawn from a small pool so that histories overlap
+	Budget     *int // remaining data nodes this tree may still get (nil: unlimited)
+}
+
+// WithBudget returns o limited to n data nodes.
+func (o GenOpts) WithBudget(n int) GenOpts {
+	o.Budget = &n
+	return o
+}
+
+func (o GenOpts) spend() bool {
+	if o.Budget == nil {
+		return true
+	}
+	if *o.Budget <= 0 {
+		return false
+	}
+	*o.Budget--
+	return true
 }
 
 func DefaultGen() GenOpts { return GenOpts{MaxEntries: 3, Density: 55, KeyPool: 4} }
+
+// NastyStrings exercise the writer's escaping.
+var NastyStrings = []string{"", " ", "a\"b", "back\\slash", "line\nfeed\ttab\r", "\x00", "\x01\x1f", "\x7f", "\u2028\u2029", "é", "日本語", "😀", "<>&'", "</script>", "\ufffd", "a\u0000b", "{}[],:", "  lead and trail  "}
 
 var words = []string{"alpha", "bravo", "charlie", "delta", "echo", "fox", "golf", "hotel"}
 
@@ -23,6 +47,12 @@ var words = []string{"alpha", "bravo", "charlie", "delta", "echo", "fox", "golf"
 func Value(r *kit.Rng, s *schema.Node, o GenOpts) string {
 	switch s.Type {
 	case "string":
+		if o.Nasty && r.Chance(1, 2) {
+			if r.Chance(1, 10) {
+				return strings.Repeat(NastyStrings[r.Intn(len(NastyStrings))]+"x", r.Range(10, 400))
+			}
+			return NastyStrings[r.Intn(len(NastyStrings))]
+		}
 		if !o.NoZero && r.Chance(1, 12) {
 			return ""
 		}
@@ -31,9 +61,52 @@ func Value(r *kit.Rng, s *schema.Node, o GenOpts) string {
 		if o.NoZero {
 			return fmt.Sprint(r.Range(1, 500))
 		}
+		if o.Nasty && r.Chance(1, 4) {
+			if s.Type == "int64" {
+				return r.Pick([]string{"-9223372036854775808", "9223372036854775807", "9007199254740993"})
+			}
+			return r.Pick([]string{"-2147483648", "2147483647"})
+		}
 		return fmt.Sprint(r.Range(-50, 500))
 	case "uint8":
-		return fmt.Sprint(r.Range(1, 200))
+		return r.Pick([]string{"0", "1", "200", "255", fmt.Sprint(r.Range(1, 200))})
+	case "int8":
+		return r.Pick([]string{"-128", "127", "0", "-1", fmt.Sprint(r.Range(-100, 100))})
+	case "int16":
+		return r.Pick([]string{"-32768", "32767", "0", fmt.Sprint(r.Range(-3000, 3000))})
+	case "uint16":
+		return r.Pick([]string{"65535", "0", fmt.Sprint(r.Range(0, 60000))})
+	case "uint32":
+		return r.Pick([]string{"4294967295", "0", "2147483648", fmt.Sprint(r.Range(0, 1000000))})
+	case "uint64":
+		return r.Pick([]string{"18446744073709551615", "0", "9223372036854775808", "9007199254740993", fmt.Sprint(r.Range(0, 1000000))})
+	case "bits":
+		var ls []string
+		for _, b := range s.Bits {
+			if r.Chance(1, 2) {
+				ls = append(ls, b)
+			}
+		}
+		if len(ls) == 0 {
+			ls = []string{s.Bits[0]}
+		}
+		return strings.Join(ls, " ")
+	case "binary":
+		n := r.Range(0, 12)
+		buf := make([]byte, n)
+		for i := range buf {
+			buf[i] = byte(r.Intn(256))
+		}
+		return base64.StdEncoding.EncodeToString(buf)
+	case "empty":
+		return ""
+	case "identityref":
+		return schema.Idents[r.Intn(len(schema.Idents))]
+	case "union":
+		if r.Chance(1, 2) {
+			return fmt.Sprint(r.Range(-1000, 1000))
+		}
+		return words[r.Intn(len(words))]
 	case "boolean":
 		if o.NoZero {
 			return "true"
@@ -103,6 +176,9 @@ func Random(r *kit.Rng, s *schema.Node, o GenOpts, depth int) *Tree {
 		if !r.Chance(o.Density, 100) {
 			continue
 		}
+		if !o.spend() {
+			continue
+		}
 		switch c.Kind {
 		case schema.Leaf:
 			t.Leaf[c.Name] = Value(r, c, o)
@@ -134,6 +210,9 @@ func RandomList(r *kit.Rng, s *schema.Node, o GenOpts, depth int) *ListT {
 		n = 1
 	}
 	for i := 0; i < n; i++ {
+		if !o.spend() {
+			break
+		}
 		e := Random(r, s, o, depth)
 		if _, dup := l.Find(e.Key()); dup != nil {
 			continue
